@@ -418,13 +418,18 @@ Proof.
   assert (Hb1 : bumps e1 = 0) by (subst e1; destruct (p_has_bp st && ab); reflexivity).
   clearbody st1 e1. unfold pp_msgs.
   destruct (p_hwm st1 <? m_retries m)%nat eqn:C1.
-  - destruct (c_retry_max c <? m_retries m)%nat; [cbn [fst snd]; split; [exact Hl1 | apply okP_app; [exact He1 | apply nosend_ok; reflexivity]]|].
-    destruct (negb (p_has_bp st1)); [cbn [fst snd]; split; [exact Hl1 | apply okP_app; [exact He1 | apply nosend_ok; reflexivity]]|].
-    match goal with |- context [pp_forward c t p ?st2 m stamp ls ?pre] =>
-      destruct (pp_forward_okP t p st2 m stamp ls pre Hm He Hs) as [F1 F2] end.
-    { apply okP_app; [exact He1|]. constructor; [exact I|]. constructor; [cbn [eff_okP]; intros b; apply (tp_marker _ _ _ _ TP)|].
-      constructor; [exact I | constructor]. }
-    split; [rewrite F2; cbn [p_levels]; apply levels_set_chaser, Hl1 | exact F1].
+  - assert (HG : match pp_guard c t p st1 ls with inl (stg, eg, ls1) => p_levels stg = p_levels st1 /\ Forall (eff_okP P) eg | inr _ => True end).
+    { unfold pp_guard. destruct (p_has_bp st1); [split; [reflexivity | constructor]|].
+      destruct (next_lres ls) as [[b|e] r]; [split; [reflexivity | apply leader_okP] | exact I]. }
+    destruct (pp_guard c t p st1 ls) as [[[stg eg] ls1]|e].
+    + destruct HG as [G1 G2]. destruct (c_retry_max c <? m_retries m)%nat.
+      * cbn [fst snd]. split; [rewrite G1; exact Hl1 | apply okP_app; [exact He1 | apply okP_app; [exact G2 | apply nosend_ok; reflexivity]]].
+      * match goal with |- context [pp_forward c t p ?st2 m stamp ls1 ?pre] =>
+          destruct (pp_forward_okP t p st2 m stamp ls1 pre Hm He Hs) as [F1 F2] end.
+        { apply okP_app; [exact He1|]. apply okP_app; [exact G2|]. constructor; [exact I|]. constructor; [cbn [eff_okP]; intros b; apply (tp_marker _ _ _ _ TP)|].
+          constructor; [exact I | constructor]. }
+        split; [rewrite F2; cbn [p_levels]; rewrite G1; apply levels_set_chaser, Hl1 | exact F1].
+    + cbn [fst snd]. split; [exact Hl1 | apply okP_app; [exact He1 | apply nosend_ok; reflexivity]].
   - destruct (0 <? p_hwm st1)%nat eqn:C2.
     + destruct (m_retries m <? p_hwm st1)%nat eqn:C3.
       * destruct (length (p_levels st1) <=? m_retries m)%nat; [cbn [fst snd]; split; [exact Hl1 | apply okP_app; [exact He1 | apply nosend_ok; reflexivity]]|].
